@@ -28,7 +28,7 @@ ASSUMPTIONS = [
 ]
 REQUIRED_COUNTERS = ['executes', 'callback_calls_judged', 'records_judged',
                      'overlaps_refused', 'post_state_checks', 'races_run',
-                     'abort_schedules']
+                     'abort_schedules', 'two_test_sigint_runs']
 EXHAUSTIVE = {'quick': False, 'thorough': False}
 PLAN = {
     'quick': {'workers': 16, 'budget_s': 45, 'sampled_per_worker': 450,
@@ -101,6 +101,21 @@ def enumerated(tier):
   else:
     for j in range(1400):
       yield {'k': 'abort_sched', 'cover': j}
+
+
+  # two Tests run at once (one on the main thread) and the operator presses
+  # Ctrl-C twice: real SIGINTs, each schedule in its own process
+  for second in ('after_other_finished', 'none', 'at_once', 'during_first_handler'):
+    for gap_ms in ((0, 5, 30) if second in ('after_other_finished',
+                                            'during_first_handler') else (0,)):
+      for td_s in (0.6, 0.2):
+        for order in ('a_first', 'b_first'):
+          yield {'k': 'two_sigint', 'second': second, 'gap_ms': gap_ms, 'td_s': td_s,
+                 'order': order}
+          if second == 'after_other_finished' and td_s > 0.5:
+            # the other test outlives the handler of the first SIGINT
+            yield {'k': 'two_sigint', 'second': second, 'gap_ms': gap_ms,
+                   'td_s': 1.0, 'b_td_s': 0.3, 'order': order}
 
 
 def sampled(tier, rng):
@@ -368,7 +383,270 @@ def run_abort_sched(case):
           'violations': viol, 'counters': c}
 
 
+def run_two_sigint(case):
+  """Runs the schedule in a child process (signals are process-wide)."""
+  import json
+  import subprocess
+  import sys
+  from vf import harness
+  p = subprocess.run(
+      [sys.executable, '-W', 'ignore', '-m', 'vf.props.c09', json.dumps(case)],
+      cwd=harness.VERIF, env=harness.worker_env(), capture_output=True, text=True,
+      timeout=120)
+  line = [l for l in p.stdout.splitlines() if l.startswith('RESULT ')]
+  if not line:
+    raise RuntimeError('child gave no result: rc=%s %s' % (
+        p.returncode, (p.stderr or '')[-600:]))
+  return json.loads(line[-1][7:])
+
+
+def _child_main():
+  import json
+  import os
+  import signal
+  import sys
+  case = json.loads(sys.argv[1])
+  sys.argv = ['verif-c09-child']
+  from vf import worker
+  worker.normal_sigint()
+  H = pm.htf()
+  ev = {k: threading.Event() for k in ('a_main', 'b_main', 'a_td', 'b_done')}
+  td_s = case['td_s']
+
+  def spin(seconds):
+    t_end = time.monotonic() + seconds
+    while time.monotonic() < t_end:
+      time.sleep(0.002)
+
+  from openhtf.plugs import base_plugs
+
+  class SlowToTearDown(base_plugs.BasePlug):
+    # after the last phase the executor thread still has work to do
+
+    def tearDown(self):
+      time.sleep(0.4)
+
+  @H.plugs.plug(slow=SlowToTearDown)
+  def a_main(slow):
+    ev['a_main'].set()
+    spin(20)
+
+  def a_td():
+    ev['a_td'].set()
+    spin(td_s)
+
+  def b_main():
+    ev['b_main'].set()
+    spin(20)
+
+  def b_td():
+    spin(case.get('b_td_s', 0))
+
+  ta = H.Test(H.PhaseGroup(main=[a_main], teardown=[a_td]))
+  tb = H.Test(H.PhaseGroup(main=[b_main], teardown=[b_td]))
+  seen = {'a': [], 'b': []}
+  for key, t in (('a', ta), ('b', tb)):
+    t.add_output_callbacks(lambda r, _k=key: seen[_k].append(
+        {'outcome': r.outcome.name if r.outcome else None,
+         'end': r.end_time_millis, 'start': r.start_time_millis,
+         'phases_unfinished': [p.name for p in r.phases
+                               if p.outcome is None or p.end_time_millis is None],
+         'phases': [[p.name, p.outcome.name if p.outcome else None,
+                     (p.end_time_millis or 0) - p.start_time_millis]
+                    for p in r.phases],
+         'rec': id(r)}))
+  ends = {}
+
+  def run(key, t):
+    try:
+      ends[key] = ['returned', t.execute()]
+    except KeyboardInterrupt:
+      ends[key] = ['KeyboardInterrupt']
+    except BaseException as e:  # pylint: disable=broad-except
+      ends[key] = ['raised', type(e).__name__, str(e)[:120]]
+
+  def run_b():
+    run('b', tb)
+    ev['b_done'].set()
+
+  info = {}
+
+  main_ident = threading.main_thread().ident
+
+  def main_in_wait():
+    # Ctrl-C while execute() is still starting the executor (or already
+    # finalizing) is C04's subject (known findings there); here the operator
+    # waits until the main thread sits in TestExecutor.wait()
+    fr = sys._current_frames().get(main_ident)  # pylint: disable=protected-access
+    while fr is not None:
+      if fr.f_code.co_name == 'wait' and fr.f_code.co_filename.endswith(
+          'test_executor.py'):
+        return True
+      fr = fr.f_back
+    return False
+
+  def operator():
+    ok = ev['a_main'].wait(20) and ev['b_main'].wait(20)
+    t_end = time.monotonic() + 20
+    while ok and not main_in_wait() and time.monotonic() < t_end:
+      time.sleep(0.001)
+    info['both_running'] = ok and main_in_wait()
+    if not info['both_running']:
+      return
+    # (pthread_kill as in C04: the main thread gets the signal.)  CPython runs
+    # the Python-level handler when the main thread next executes bytecode; a
+    # signal that lands just before the thread blocks in its lock wait is only
+    # handled when that wait ends.  The operator presses again until the
+    # handler has run.
+    def handler_running():
+      fr = sys._current_frames().get(main_ident)  # pylint: disable=protected-access
+      while fr is not None:
+        if fr.f_code.co_name == 'handle_sig_int':
+          return True
+        fr = fr.f_back
+      return False
+
+    for press in range(20):
+      signal.pthread_kill(main_ident, signal.SIGINT)
+      t_end = time.monotonic() + 0.5
+      while not (H.Test.HANDLED_SIGINT_ONCE or handler_running()) and (
+          time.monotonic() < t_end):
+        time.sleep(0.0005)
+      if H.Test.HANDLED_SIGINT_ONCE or handler_running():
+        break
+    info['first_presses'] = press + 1
+    if case['second'] == 'during_first_handler' and handler_running():
+      # the second Ctrl-C interrupts the handler of the first one
+      time.sleep(case['gap_ms'] / 1000.0)
+      if handler_running():
+        info['second_inside_first_handler'] = True
+        signal.pthread_kill(main_ident, signal.SIGINT)
+        info['sigints'] = 2
+    t_end = time.monotonic() + 10
+    while not H.Test.HANDLED_SIGINT_ONCE and time.monotonic() < t_end:
+      time.sleep(0.001)
+    if not H.Test.HANDLED_SIGINT_ONCE:
+      return
+    if case['second'] == 'during_first_handler':
+      info.setdefault('sigints', 1)
+      return
+    info['sigints'] = 1
+    if case['second'] == 'none':
+      return
+    if case['second'] == 'after_other_finished':
+      info['other_finished_first'] = ev['b_done'].wait(20)
+      ev['a_td'].wait(5)
+      info['a_in_teardown'] = ev['a_td'].is_set() and 'a' not in ends
+      time.sleep(case['gap_ms'] / 1000.0)
+    if 'a' in ends:
+      # no test is running any more: Ctrl-C would now just end the process
+      info['second_skipped'] = True
+      return
+    info['second_while_a_running'] = True
+    signal.pthread_kill(main_ident, signal.SIGINT)   # (as C04 does: the main thread gets it)
+    info['sigints'] = 2
+
+  def watchdog():
+    # a main thread that deadlocked inside the signal handler never returns
+    time.sleep(45)
+
+    def chain():
+      fr = sys._current_frames().get(main_ident)  # pylint: disable=protected-access
+      out = []
+      while fr is not None:
+        out.append([fr.f_code.co_name, fr.f_lineno])
+        fr = fr.f_back
+      return out
+    c1 = chain()
+    time.sleep(2)
+    c2 = chain()
+    names = [f[0] for f in c2]
+    if c1 == c2 and 'handle_sig_int' in names:
+      res = {'sig': ['two_sigint', 'hang'], 'violations': [{
+          'mechanism': 'sigint-handler-never-returned' + (
+              ':nested-in-handler' if names.count('handle_sig_int') > 1 else ''),
+          'detail': {'case': case, 'info': info, 'main_thread': c2[:10]}}],
+             'counters': {'two_test_sigint_runs': 1, 'callback_calls_judged': 0}}
+    else:
+      res = {'sig': None, 'violations': [], 'evaluations': 0,
+             'counters': {'harness_errors': 1}, 'note': c2[:6]}
+    print('RESULT ' + json.dumps(res, default=repr), flush=True)
+    os._exit(0)
+
+  threading.Thread(target=watchdog, name='vf-watchdog', daemon=True).start()
+  thb = threading.Thread(target=run_b, name='vf-test-b')
+  op = threading.Thread(target=operator, name='vf-operator', daemon=True)
+  if case.get('order') == 'a_first':
+    # the main-thread test registers first
+    def start_b_later():
+      ev['a_main'].wait(20)
+      thb.start()
+    threading.Thread(target=start_b_later, name='vf-starter', daemon=True).start()
+  else:
+    thb.start()
+    ev['b_main'].wait(20)
+  op.start()
+  run('a', ta)
+  ev['b_main'].wait(20)   # (thread B has been started by now)
+  for _ in range(3):
+    try:
+      thb.join(30)
+      op.join(5)
+      break
+    except KeyboardInterrupt:
+      # the second SIGINT arrived when no test was registered any more (default
+      # handler): it hit this harness, not openhtf
+      info['sigint_after_all_tests_ended'] = True
+  viol = []
+  c = {'two_test_sigint_runs': 1 if info.get('both_running') else 0,
+       'callback_calls_judged': 0,
+       'sigints_sent': info.get('sigints', 0),
+       'second_sigint_inside_first_handler':
+           1 if info.get('second_inside_first_handler') else 0,
+       'second_sigint_while_first_test_tearing_down':
+           1 if info.get('second_while_a_running') and info.get('a_in_teardown') else 0}
+  ctx = {'case': case, 'info': info, 'ends': ends}
+
+  def bad(mech, **d):
+    viol.append({'mechanism': mech, 'detail': dict(ctx, **d)})
+
+  for key in ('a', 'b') if info.get('sigints') else ():
+    end = ends.get(key)
+    if end is None:
+      bad('execute-did-not-return', test=key)
+      continue
+    if end[0] == 'raised':
+      bad('execute-raised:%s' % end[1], test=key, text=end[2])
+    calls = seen[key]
+    c['callback_calls_judged'] += len(calls)
+    if len(calls) != 1:
+      bad('callback-called-%d-times' % len(calls), test=key)
+      continue
+    r = calls[0]
+    if r['outcome'] is None or r['end'] is None:
+      bad('record-not-final-in-callback', test=key, outcome=r['outcome'], end=r['end'])
+    elif r['phases_unfinished']:
+      bad('phase-record-incomplete', test=key, phases=r['phases_unfinished'])
+    elif r['outcome'] != 'ABORTED':
+      bad('aborted-run-not-ABORTED', test=key, outcome=r['outcome'],
+          phases=r['phases'])
+    elif end[0] == 'returned' and end[1] != (r['outcome'] == 'PASS'):
+      bad('return-value-differs-from-outcome', test=key, outcome=r['outcome'])
+  if H.Test.TEST_INSTANCES:
+    bad('still-registered-for-sigint', n=len(H.Test.TEST_INSTANCES))
+  if not info.get('sigints'):
+    c['harness_errors'] = 1      # the schedule could not be set up: no verdict
+  res = {'sig': ['two_sigint', case['second'], case['gap_ms'], case['td_s'],
+                 case.get('order'), case.get('b_td_s')],
+         'violations': viol[:4], 'counters': c}
+  print('RESULT ' + json.dumps(res, default=repr), flush=True)
+  sys.stdout.flush()
+  os._exit(0)
+
+
 def run_case(case):
+  if case.get('k') == 'two_sigint':
+    return run_two_sigint(case)
   if case.get('k') == 'race':
     return run_race(case)
   if case.get('k') == 'abort_sched':
@@ -612,3 +890,7 @@ def run_history(case):
   return {'sig': [case['prog'], case['cfg'], hist, case['ncb'], case['raising']]
           if c['callback_calls_judged'] else None,
           'violations': viol, 'counters': c}
+
+
+if __name__ == '__main__':
+  _child_main()
